@@ -178,17 +178,17 @@ impl<'w> Model<'w> {
         let fuel = self.world.knobs.fuel.saturating_mul(10);
         let ctx = sched::cur_ctx();
         let (saved_armed, saved_model) = match &ctx {
-            Some(c) => (c.armed, c.model),
+            Some(c) => (c.armed.get(), c.model.get()),
             None => (false, false),
         };
         let mut steps = 0;
         let text_static: &'static str = unsafe { &*(text as *const str) };
         let r = {
             if let Some(c) = sched::cur_ctx() {
-                c.armed = false;
-                c.model = true;
-                c.model_steps = 0;
-                c.model_fuel = fuel;
+                c.armed.set(false);
+                c.model.set(true);
+                c.model_steps.set(0);
+                c.model_fuel.set(fuel);
             }
             let r = catch_unwind(AssertUnwindSafe(|| {
                 IN_OP.with(|c| c.set(true));
@@ -203,9 +203,9 @@ impl<'w> Model<'w> {
             }));
             IN_OP.with(|c| c.set(false));
             if let Some(c) = sched::cur_ctx() {
-                steps = c.model_steps;
-                c.model = saved_model;
-                c.armed = saved_armed;
+                steps = c.model_steps.get();
+                c.model.set(saved_model);
+                c.armed.set(saved_armed);
             }
             r
         };
@@ -633,7 +633,7 @@ impl<'a> Client<'a> {
         self.recs.push(OpRec { outcome, steps, fault, skipped_dead: false });
     }
 
-    fn run_script(&mut self, ctx: &mut Ctx) {
+    fn run_script(&mut self, ctx: &Ctx) {
         let ops = &self.sh.world.threads[self.tid];
         for (i, op) in ops.iter().enumerate() {
             if let Some(s) = self.sh.sched {
@@ -649,7 +649,7 @@ impl<'a> Client<'a> {
         self.clones.clear();
     }
 
-    fn run_op(&mut self, ctx: &mut Ctx, i: usize, op: &Op) {
+    fn run_op(&mut self, ctx: &Ctx, i: usize, op: &Op) {
         self.stats.ops += 1;
         let world = self.sh.world;
         let nhay = world.hays.len() as u32;
@@ -849,11 +849,11 @@ impl<'a> Client<'a> {
         };
 
         // ---- armed section
-        ctx.op_steps = 0;
-        ctx.fuel = world.knobs.fuel;
-        ctx.cancel_at = cancel_at;
-        ctx.look_depth = 0;
-        ctx.cur_obj = obj;
+        ctx.op_steps.set(0);
+        ctx.fuel.set(world.knobs.fuel);
+        ctx.cancel_at.set(cancel_at);
+        ctx.look_depth.set(0);
+        ctx.cur_obj.set(obj);
         if let Some(s) = self.sh.sched {
             s.set_midsearch(self.tid, obj);
             if obj != NO_OBJ && matches!(op.kind, OpKind::CloneRegex { .. }) && s.others_midsearch(self.tid, obj) > 0 {
@@ -861,15 +861,15 @@ impl<'a> Client<'a> {
             }
         }
         IN_OP.with(|c| c.set(true));
-        ctx.armed = true;
+        ctx.armed.set(true);
         let res = catch_unwind(AssertUnwindSafe(|| self.armed_part(&armed)));
-        ctx.armed = false;
+        ctx.armed.set(false);
         IN_OP.with(|c| c.set(false));
-        ctx.cur_obj = NO_OBJ;
+        ctx.cur_obj.set(NO_OBJ);
         if let Some(s) = self.sh.sched {
             s.set_midsearch(self.tid, NO_OBJ);
         }
-        let steps = ctx.op_steps;
+        let steps = ctx.op_steps.get();
 
         // ---- post (hook not armed)
         match res {
@@ -1115,11 +1115,11 @@ fn run_thread(sh: &PassShared, tid: usize) -> ThreadOut {
         Some(s) => s as *const Scheduler,
         None => std::ptr::null(),
     };
-    let mut ctx = Ctx::new(tid, sched_ptr);
+    let ctx = Ctx::new(tid, sched_ptr);
     let mut client = Client::new(sh, tid);
-    with_ctx(&mut ctx, |ctx| client.run_script(ctx));
+    with_ctx(&ctx, |ctx| client.run_script(ctx));
     let Client { recs, c09, stats, .. } = client;
-    ThreadOut { recs, c09, stats, sites: ctx.sites, steps: ctx.total_steps, ev: ctx.ev.0 }
+    ThreadOut { recs, c09, stats, sites: ctx.sites_snapshot(), steps: ctx.total_steps.get(), ev: ctx.ev.get() }
 }
 
 pub fn run_pass(sh: &PassShared) -> PassRes {
